@@ -76,19 +76,34 @@ func (d *Data) initMemoryDB(versions []string) error {
 		}
 		if strings.HasPrefix(versionSpec, ":") {
 			branch := strings.TrimPrefix(versionSpec, ":")
-			dbs.head[branch] = mdb
 			_, v, err := datastore.GetBranchHead(d.RootUUID(), branch)
 			if err != nil {
+				// Not registered: an empty db under this name would later be served for the
+				// head of a branch created with it, hiding the annotations the branch inherits.
 				dvid.Infof("could not find branch %q specified for neuronjson %q in-memory db: %v",
 					branch, d.DataName(), err)
-			} else if err := d.loadMemDB(v, mdb); err != nil {
+				continue
+			}
+			if err := d.loadMemDB(v, mdb); err != nil {
 				return err
 			}
+			dbs.head[branch] = mdb
 			d.initFieldTimes(mdb)
 		} else {
 			uuid, v, err := datastore.MatchingUUID(versionSpec)
 			if err != nil {
 				return err
+			}
+			locked, err := datastore.LockedVersion(v)
+			if err != nil {
+				return err
+			}
+			if !locked {
+				// The UUID dbs are read-only copies; an open version keeps changing and its
+				// updates would bypass the HEAD db of its branch.
+				dvid.Infof("version %s specified for neuronjson %q in-memory db is not committed: skipped",
+					uuid, d.DataName())
+				continue
 			}
 			if err := d.loadMemDB(v, mdb); err != nil {
 				return err
